@@ -99,7 +99,7 @@ func notNeeded(date string, todo work) bool {
 	for _, f := range todo.readyfiles {
 		// Look at the file name only: readyfiles holds absolute paths, and
 		// the telemetry directory's own path may contain a date.
-		if strings.Contains(filepath.Base(f), date) {
+		if filepath.Base(f) == date+".json" {
 			return true
 		}
 	}
